@@ -1214,6 +1214,23 @@ def check_crh(rec, case):
             rec.violation("crh-rank2" if len(shape) > 1 else "crh-saturated", case,
                           {"what": "same axis addressed with the other sign", "lane": 0,
                            "got": other.reshape(-1)[:4].tolist()})
+        # call history: the same temperature buffer is modified in place (a colder state) and passed
+        # again - the saturated profile of the *new* state must give 1 again
+        Tbuf = T  # the very array object of the calls above
+        T_saved = Tbuf.copy()
+        try:
+            Tbuf -= 6.0
+            with np.errstate(all="ignore"):
+                qs2 = atm.water_vapor_pressure2specific_humidity(atm.e_eq_mixed_mk(Tbuf), p_b)
+            if np.all(qs2 > 0) and np.all(qs2 < 1):
+                rec.count("crh.buffer_reuse_calls")
+                again = crh(qs2, Targ=Tbuf)
+                if again.shape != want_shape or np.any(~(np.abs(again - 1) <= tol)):
+                    rec.violation("crh-stale-state", case,
+                                  {"what": "temperature buffer modified in place between two calls",
+                                   "got": again.reshape(-1)[:4].tolist(), "want": 1.0, "tol": tol})
+        finally:
+            Tbuf[...] = T_saved
     except ContractBreach as exc:
         rec.violation(exc.key, case, dict(exc.detail, lane=0))
         return
